@@ -13,6 +13,45 @@ multi-index (x0..xn-1) in shape (d0..dn-1) is ((x0*d1 + x1)*d2 + x2)... (row
 major, cross-checked against numpy.ravel_multi_index / unravel_index);
 marginals and conditional slices are accumulated cell by cell in explicit
 loops over that serial index.
+
+History / combination steps (every one is judged by the same hooks and driver
+oracles as the first pass, against the reference model, never against an
+earlier answer of quara; keys that can only come from such a step carry a
+suffix):
+  :second-call                the same objects asked again after other calls
+                              (marginalize / conditionalize in another order and
+                              with other assignments, joint = marginal x
+                              conditional again, every cell of the joint read
+                              again against the reference tensor, the same
+                              composition repeated on the same operand objects)
+  :same-shape-twin            a second distribution / process of the same shape,
+                              class and options with other numbers, used
+                              alternately with the first
+  :re-used-object             process objects applied to another state / another
+                              ensemble, the process kept from the previous case
+                              of the shard applied to this case's operands
+  :re-read-after-later-calls  ensembles of the first pass read again at the end;
+  ...result-changed-after-later-calls  distributions returned in the first pass
+                              read again against the snapshot taken when they
+                              were returned (1e-13 / 1e-9, not bit-wise)
+  :on-returned-distribution   returned distributions (marginals, conditionals,
+                              Povm o StateEnsemble) as operands of marginalize /
+                              conditionalize
+  :after-setter               MProcess.set_mode_sampling(True, seed) - one
+                              sampled composition, not judged - then
+                              set_mode_sampling(False) and the composition again
+  :via-copy / :via-gate       operands reached through copy() (only when the
+                              copy reproduces its source) / through
+                              Gate o StateEnsemble
+  :sibling-system             a short chain on a second composite system of the
+                              same dimensions with the other basis in the same
+                              process
+plus, without suffix (the hooks judge every call): one list object re-used for
+the sizes of many shapes and the previous shape asked again in the index shards,
+a twin ProbDist, default option values asked again after explicit ones
+(validate_prob_dist eps / validate_sum, MultinomialDistribution eps_zero).
+The decisions of these steps come from their own RNG sub-stream, so the first
+pass of every case is the former workload unchanged.
 """
 import itertools
 
@@ -32,7 +71,10 @@ RULE = ("(a) index maps: every shape with 1..4 variables of 1..5 values and ever
         "sub-threshold entries; (c) ensembles: d in {2,3,4,6}, MProcess o State, MProcess o (MProcess o State) and a third "
         "step, pairwise different outcome counts from 2..4 (also a (2,2)-shaped MProcess and a directly built ensemble), "
         "generic / zero-probability first step / zero-probability second step; distinct by (dims, counts, kind, rounded "
-        "state), non-trivial when the step counts differ")
+        "state), non-trivial when the step counts differ; (d) history steps in every case of (b) and (c): a same-shape twin "
+        "used alternately, second calls in another order, returned distributions as operands, first results and the joint "
+        "read again at the end; processes re-used with other states / ensembles and across cases, sampling-mode setter on and "
+        "off, operands via copy() and via a gate, a sibling system with the other basis (these add evaluations, not distinct cases)")
 ANCHORS = [
     "quara/utils/index_util.py:index_multi_dimensional_from_index_serial",
     "quara/utils/index_util.py:index_serial_from_index_multi_dimensional",
@@ -59,6 +101,16 @@ REQUIRED_ORACLES = [
     "validate_prob_dist:verdict", "ProbDist.getitem:multi",
     "ensemble:MProcess*State:probability-of-history", "ensemble:MProcess*State:post-state-of-history",
     "ensemble:MProcess*StateEnsemble:probability-of-history", "ensemble:MProcess*StateEnsemble:post-state-of-history",
+    # history steps
+    "driver:getitem-vs-reference-tensor:second-call", "driver:getitem-vs-reference-tensor:same-shape-twin",
+    "driver:joint=marginal*conditional(quara-marginal):second-call", "driver:returned-distribution-unchanged",
+    "driver:attributes-as-constructed:second-call",
+    "ensemble:MProcess*State:post-state-of-history:second-call", "ensemble:MProcess*State:post-state-of-history:re-used-object",
+    "ensemble:MProcess*State:post-state-of-history:same-shape-twin", "ensemble:MProcess*State:post-state-of-history:after-setter",
+    "ensemble:MProcess*State:post-state-of-history:re-read-after-later-calls",
+    "ensemble:MProcess*StateEnsemble:post-state-of-history:second-call", "ensemble:MProcess*StateEnsemble:post-state-of-history:re-used-object",
+    "ensemble:MProcess*StateEnsemble:post-state-of-history:re-read-after-later-calls",
+    "ensemble:MProcess*StateEnsemble:post-state-of-history:sibling-system",
 ]
 MIN_EVALS = {"quick": 400000, "thorough": 4000000}
 WATCHDOG = {"quick": 600, "thorough": 2400}
@@ -720,6 +772,7 @@ S_RETURNED = ":on-returned-distribution"
 S_SETTER = ":after-setter"
 S_COPY = ":via-copy"
 S_GATE = ":via-gate"
+S_SIBLING = ":sibling-system"
 
 
 class FirstResults:
@@ -1219,7 +1272,7 @@ def check_ensemble(ctx, tag, ens, sig, B, info, sfx=""):
     return True
 
 
-def ens_history(ctx, compose, c_sys, B, d, info, i, kept, state, rho, M1, shp1, sets1, M2, m2, sets2, e1, sig1, e2, sig2, third, dist):
+def ens_history(ctx, compose, c_sys, B, d, info, i, kept, sib, state, rho, M1, shp1, sets1, M2, m2, sets2, e1, sig1, e2, sig2, third, dist):
     """history / combination steps of one ensemble case; every ensemble is judged by check_ensemble against its own
     reference histories (and every state(t) call by the hook), nothing is compared with an earlier answer of quara"""
     rng = ctx.rng(HIST)
@@ -1267,6 +1320,26 @@ def ens_history(ctx, compose, c_sys, B, d, info, i, kept, state, rho, M1, shp1, 
             step(TE, S_REUSED, lambda: compose(M2, e1b), ref_histories(rho_b, [(shp1, sets1), ((m2,), sets2)]))
     if M1t is not None:
         step(TE, S_TWIN, lambda: compose(M2, M1t, state), ref_histories(rho, [(shp1, sets1t), ((m2,), sets2)]))
+    # ---- (c) a short chain on a SIBLING composite system of the same dimensions with the other basis, living in the same
+    #      process (a module-level cache keyed by dimension / system names / outcome counts would mix the two up)
+    if sib is not None:
+        c2, B2 = sib
+        rho_s = ref.rand_density(d, rng, int(rng.integers(1, d + 1)))
+        sets_s1 = ref.rand_instrument(d, n1, rng, [int(rng.integers(1, 3)) for _ in range(n1)])
+        sets_s2 = ref.rand_instrument(d, m2, rng, [int(rng.integers(1, 3)) for _ in range(m2)])
+        ok, ob = ctx.attempt(lambda: (gen.make_state(c2, rho_s), gen.make_mprocess(c2, sets_s1, shape=shp1), gen.make_mprocess(c2, sets_s2)))
+        if not ok:
+            ctx.violation("ensemble:construction:" + ctx.exc_key(ob) + S_SIBLING, info)
+        else:
+            ok, es1 = ctx.attempt(compose, ob[1], ob[0])
+            if not ok:
+                ctx.violation(f"ensemble:{TS}:" + ctx.exc_key(es1) + S_SIBLING, info)
+            elif check_ensemble(ctx, TS, es1, ref_histories(rho_s, [(shp1, sets_s1)]), B2, info, S_SIBLING):
+                ok, es2 = ctx.attempt(compose, ob[2], es1)
+                if not ok:
+                    ctx.violation(f"ensemble:{TE}:" + ctx.exc_key(es2) + S_SIBLING, info)
+                else:
+                    check_ensemble(ctx, TE, es2, ref_histories(rho_s, [(shp1, sets_s1), ((m2,), sets_s2)]), B2, info, S_SIBLING)
     # ---- (a) the same calls again on the same operand objects
     step(TS, S_SECOND, lambda: compose(M1, state), sig1)
     step(TE, S_SECOND, lambda: compose(M2, e1), sig2)
@@ -1344,6 +1417,8 @@ def run_ens(ctx, hs):
     d = c_sys.dim
     KINDS = ["random", "eigen", "prepare", "shape2d", "direct", "random"]
     kept = {}   # a measurement process (with its Kraus sets) kept alive from the previous case of the shard
+    ok, c2 = ctx.attempt(gen.make_csys, dims, kind={"std": "nggm", "nggm": "std"}[prm["basis"]])
+    sib = (c2, gen.basis_of(c2)) if ok else None
     for i in ctx.cases(prm["n"]):
         rng = ctx.rng()
         kind = KINDS[i % len(KINDS)]
@@ -1481,7 +1556,7 @@ def run_ens(ctx, hs):
                     worst = min(maxabs(Jo, Jr), maxabs(Jo, Jr / Jr.sum()))  # renormalised or not (see check_ensemble)
                     ctx.num("ensemble:Povm*StateEnsemble:joint-probability", worst, 1e-12, 1e-9,
                             key="ensemble:Povm*StateEnsemble:joint-probability-of-(history,outcome)-wrong", info=dict(info, J=J))
-        ens_history(ctx, compose_qoperations, c_sys, B, d, info, i, kept, state, rho, M1, shp1, sets1, M2, m2, sets2, e1, sig1, e2, sig2, third, dist)
+        ens_history(ctx, compose_qoperations, c_sys, B, d, info, i, kept, sib, state, rho, M1, shp1, sets1, M2, m2, sets2, e1, sig1, e2, sig2, third, dist)
         kept = {"M": M2, "sets": sets2, "shp": (m2,)}
     if ctx.only_case is None:
         hs.require(["StateEnsemble.state", "MD.getitem", "MD.ctor", "index.serial_from_multi"])
